@@ -137,6 +137,8 @@ pub async fn accept_loop<F>(
                 // `Permit::new_sub` misses a revocation that happens while it runs.
                 // The connection's permit would then never be revoked.
                 if permit.is_revoked() {
+                    #[cfg(feature = "verif_hooks")]
+                    crate::verif::emit("AccRevokedAfterAccept", u64::from(addr.port()), 0);
                     return;
                 }
                 conn_handler.clone()(conn_permit, token, stream, addr);
